@@ -19,7 +19,13 @@ import (
 
 type Rng struct{ s uint64 }
 
-func NewRng(seed uint64) *Rng { return &Rng{s: seed*0x9E3779B97F4A7C15 + 0x1234567} }
+func NewRng(seed uint64) *Rng {
+	// scramble the seed so that neighbouring seeds give unrelated streams
+	z := seed ^ 0xD6E8FEB86659FD93
+	z = (z ^ (z >> 32)) * 0xD6E8FEB86659FD93
+	z = (z ^ (z >> 32)) * 0xD6E8FEB86659FD93
+	return &Rng{s: z ^ (z >> 32)}
+}
 func (r *Rng) U64() uint64 {
 	r.s += 0x9E3779B97F4A7C15
 	z := r.s
